@@ -235,6 +235,149 @@ func pieces(fn *ast.FuncDecl) []string {
 	return out
 }
 
+// ---------------------------------------------------------------- helper bodies
+//
+// Assignments `x := (int)(A / K)` / `x = (int)(A % K)` with A a local variable or `time - this.BASE_TIME`
+// and K a constant, in source order; then the outputs (WriteString arguments / the Sprintf) with the
+// names of the variables passed.  The guard `if time < this.BASE_TIME { return … }` is not part of it.
+func unwrapConv(e ast.Expr) ast.Expr {
+	for {
+		switch x := e.(type) {
+		case *ast.ParenExpr:
+			e = x.X
+		case *ast.CallExpr: // (int)(E) or int(E)
+			if len(x.Args) != 1 {
+				return e
+			}
+			fun := x.Fun
+			if p, ok := fun.(*ast.ParenExpr); ok {
+				fun = p.X
+			}
+			if id, ok := fun.(*ast.Ident); ok && (id.Name == "int" || id.Name == "int64") {
+				e = x.Args[0]
+				continue
+			}
+			return e
+		default:
+			return e
+		}
+	}
+}
+
+func helperBody(fn *ast.FuncDecl) (string, string) {
+	if fn == nil || fn.Type.Params == nil || len(fn.Type.Params.List) != 1 || len(fn.Type.Params.List[0].Names) != 1 {
+		return "[]", "[.other]"
+	}
+	param := fn.Type.Params.List[0].Names[0].Name
+	isElapsed := func(e ast.Expr) bool {
+		e = unwrapConv(e)
+		be, ok := e.(*ast.BinaryExpr)
+		if !ok || be.Op != token.SUB {
+			return false
+		}
+		a, ok1 := be.X.(*ast.Ident)
+		sel, ok2 := be.Y.(*ast.SelectorExpr)
+		return ok1 && ok2 && a.Name == param && sel.Sel.Name == "BASE_TIME"
+	}
+	var assigns, outs []string
+	argName := func(e ast.Expr) string {
+		if id, ok := unwrapConv(e).(*ast.Ident); ok {
+			return id.Name
+		}
+		return "?"
+	}
+	for _, st := range fn.Body.List {
+		switch x := st.(type) {
+		case *ast.AssignStmt:
+			if len(x.Lhs) != 1 || len(x.Rhs) != 1 {
+				continue
+			}
+			dst, ok := x.Lhs[0].(*ast.Ident)
+			if !ok {
+				continue
+			}
+			be, ok := unwrapConv(x.Rhs[0]).(*ast.BinaryExpr)
+			if !ok || (be.Op != token.QUO && be.Op != token.REM) {
+				continue
+			}
+			k, ok := evalConst(be.Y, 0)
+			if !ok || k <= 0 {
+				assigns = append(assigns, fmt.Sprintf("⟨%s, false, .var \"?\", 0⟩", leanStr(dst.Name)))
+				continue
+			}
+			src := ""
+			if isElapsed(be.X) {
+				src = ".elapsed"
+			} else if id, ok := unwrapConv(be.X).(*ast.Ident); ok {
+				src = ".var " + leanStr(id.Name)
+			} else {
+				src = ".var \"?\""
+			}
+			assigns = append(assigns, fmt.Sprintf("⟨%s, %v, %s, %d⟩", leanStr(dst.Name), be.Op == token.REM, src, k))
+		}
+	}
+	ast.Inspect(fn.Body, func(n ast.Node) bool {
+		if i, ok := n.(*ast.IfStmt); ok { // the guard for instants before the base: skip
+			if be, ok := i.Cond.(*ast.BinaryExpr); ok && be.Op == token.LSS {
+				return false
+			}
+		}
+		c, ok := n.(*ast.CallExpr)
+		if !ok {
+			return true
+		}
+		sel, ok := c.Fun.(*ast.SelectorExpr)
+		if !ok {
+			return true
+		}
+		if sel.Sel.Name == "WriteString" && len(c.Args) == 1 {
+			item := ".other"
+			switch a := c.Args[0].(type) {
+			case *ast.BasicLit:
+				if str, err := strconv.Unquote(a.Value); err == nil {
+					var xs []int64
+					for _, r := range str {
+						xs = append(xs, int64(r))
+					}
+					item = ".lit " + natList(xs)
+				}
+			case *ast.CallExpr:
+				if id, ok := a.Fun.(*ast.Ident); ok && len(a.Args) == 1 && (id.Name == "mk2" || id.Name == "mk3") {
+					item = "." + id.Name + " " + leanStr(argName(a.Args[0]))
+				}
+			case *ast.SelectorExpr: // this.dateTable[idx].date
+				if a.Sel.Name == "date" {
+					if ix, ok := a.X.(*ast.IndexExpr); ok {
+						item = ".date " + leanStr(argName(ix.Index))
+					}
+				}
+			}
+			outs = append(outs, item)
+			return false
+		}
+		if sel.Sel.Name == "Sprintf" && len(c.Args) >= 1 {
+			item := ".other"
+			if l, ok := c.Args[0].(*ast.BasicLit); ok {
+				if str, err := strconv.Unquote(l.Value); err == nil {
+					var xs []int64
+					for _, r := range str {
+						xs = append(xs, int64(r))
+					}
+					names := make([]string, len(c.Args)-1)
+					for i, a := range c.Args[1:] {
+						names[i] = argName(a)
+					}
+					item = ".sprintf " + natList(xs) + " " + strList(names)
+				}
+			}
+			outs = append(outs, item)
+			return false
+		}
+		return true
+	})
+	return "[" + strings.Join(assigns, ", ") + "]", "[" + strings.Join(outs, ", ") + "]"
+}
+
 // ---------------------------------------------------------------- pad functions
 //
 // mk2 / mk3 : func(n int) string, transcribed statement by statement into Cal.PadStmt.
@@ -992,6 +1135,13 @@ func main() {
 	fmt.Fprintf(&b, "def parseDateArgLetters : List Nat := %s\n", natList(dateArgs))
 	fmt.Fprintf(&b, "def parseNanosPerMilli : Nat := %d\n", nsMul)
 	fmt.Fprintf(&b, "def parseUnixNanoDivisor : Nat := %d\n", msDiv)
+
+	// whole bodies of the string helpers: the `/ %` chain (Cal.Assign) and the outputs with variable names (Cal.Out)
+	for _, name := range []string{"datetime", "timestamp", "logtime", "ymdhms", "hhmmss", "hhmm"} {
+		as, os := helperBody(funcs[name])
+		fmt.Fprintf(&b, "def chain_%s : List Cal.Assign := %s\n", name, as)
+		fmt.Fprintf(&b, "def outs_%s : List Cal.Out := %s\n", name, os)
+	}
 
 	// pad functions as PadStmt programs, Sprintf formats as code points
 	for _, name := range []string{"mk2", "mk3"} {
